@@ -184,7 +184,9 @@ PROPS["C14"] = dict(
     kani=[dict(files=["contracts/C14/c14.rs"])],
     native=[dict(files=["contracts/C14/c14_native.rs"],
                  harnesses={"c14_native_initialisation": dict(anchor="random_spread",
-                            bound="BOUNDED STAND-IN, native run: 40 seeds x sizes 0..4 x 4 domains / dimensions 0..5 for random_spread, random_permutation, random_bitstring")})],
+                            bound="BOUNDED STAND-IN, native run: 40 seeds x sizes 0..4 x 4 domains / dimensions 0..5 for random_spread, random_permutation, random_bitstring"),
+                            "c14_native_components": dict(anchor="initialisation and boundary-repair components",
+                            bound="BOUNDED STAND-IN, native run: RandomSpread/RandomPermutation/RandomBitstring/Empty components x sizes {0,1,2,7} x 16 seeds; Saturation/Toroidal/Mirror/CompleteOneTailedNormalCorrection components on an 18-point grid per coordinate x 3 domains x 8 seeds (bounds, unchanged-inside, idempotence)")})],
     min_obligations={"quick": 38, "thorough": 41},
     uncovered=["initialisation operators (rejection-sampling loops over a symbolic RNG are unbounded)", "resampling distribution",
                "boundary_constraint driver over populations"],
